@@ -51,6 +51,16 @@ func NewKeyBackuper(privateFolder, publicFolder string, storage Storage, decrypt
 	return &KeyBackuper{privateFolder: privateFolder, publicFolder: publicFolder, storage: storage, currentDecryptor: decryptor, keyStore: keyStore}, nil
 }
 
+// ErrKeyNameOutsideFolder is returned by Import for a bundle with a key name that leaves the key folder
+var ErrKeyNameOutsideFolder = errors.New("key name points outside of the key folder")
+
+// isInsideFolder tells whether the file a key name designates inside a key folder is located in that
+// folder: the joined (and thereby cleaned) path must not lead out of it.
+func isInsideFolder(folder, name string) bool {
+	relPath, err := filepath.Rel(folder, filepath.Join(folder, name))
+	return err == nil && relPath != ".." && !strings.HasPrefix(relPath, ".."+string(filepath.Separator))
+}
+
 // ReadDir reads a directory and returns paths of items
 func ReadDir(storage Storage, path string) ([]string, error) {
 	output := make([]string, 0, 100)
@@ -350,6 +360,14 @@ func (store *KeyBackuper) Import(backup *keystore.KeysBackup) ([]keystore.KeyDes
 	keys := []*keystore.Key{}
 	if err := decoder.Decode(&keys); err != nil {
 		return nil, err
+	}
+
+	// The names of the keys come from the bundle. Before anything is written, refuse a bundle with a name
+	// that would take a key file out of the key folders ("../x", "a/../../x").
+	for _, key := range keys {
+		if !isInsideFolder(store.privateFolder, key.Name) || !isInsideFolder(store.publicFolder, key.Name) {
+			return nil, ErrKeyNameOutsideFolder
+		}
 	}
 
 	descriptions := make([]keystore.KeyDescription, 0, len(keys))
